@@ -84,20 +84,20 @@ Theorem c11_model_runs_pass hash size ls sf :
 Proof. exact (history_ok_b_all hash size ls sf). Qed.
 Print Assumptions c11_model_runs_pass.
 
-(** ** No races on memory: the lock table regenerated from the source is accepted ... *)
-Theorem c11_lock_table_sound : check_locks LockFacts.table = true.
-Proof. exact lock_table_ok. Qed.
-Print Assumptions c11_lock_table_sound.
-
-(** ... and an accepted table means: under every schedule of lock sections (writers
-    exclusive, readers shared) two different threads are never at the same time inside two
-    methods of one shard of which one writes the map and the other reads or writes it. *)
+(** ** No races on memory: under every schedule of lock sections (writers exclusive, readers
+    shared) an accepted lock table means that two different threads are never at the same time
+    inside two methods of one shard of which one writes the map and the other reads or writes it ... *)
 Theorem c11_lock_discipline tbl ls s t1 r1 t2 r2 :
   check_locks tbl = true -> lk_run [] ls = Some s ->
   In (t1, r1) s -> In (t2, r2) s -> t1 <> t2 -> In r1 tbl -> In r2 tbl ->
   conflict r1 r2 = true -> False.
 Proof. exact (lock_discipline tbl ls s t1 r1 t2 r2). Qed.
 Print Assumptions c11_lock_discipline.
+
+(** ... and the lock table regenerated from the source on this run is accepted. *)
+Theorem c11_lock_table_sound : check_locks LockFacts.table = true.
+Proof. exact (lock_table_ok_by LockFacts.table (eq_refl true)). Qed.
+Print Assumptions c11_lock_table_sound.
 
 (** ** Non-vacuity *)
 (** A run in which a Get overlaps a Store to the same key, returns the stored value, a Flush
